@@ -13,4 +13,4 @@ require (
 	golang.org/x/tools v0.14.0 // indirect
 )
 
-replace github.com/cosmos72/gomacro => /scratch/repo-C06mut
+replace github.com/cosmos72/gomacro => /repo
